@@ -1252,6 +1252,9 @@ bool ScriptVM::Process(ScriptContext& context, uinttime_t interruptTime)
         }
 
         case OP_STORE_FIELD:
+        {
+            bool operandsRead = false;
+
             try
             {
                 Listener* listener = m_Stack.GetTop().listenerValue();
@@ -1262,16 +1265,22 @@ bool ScriptVM::Process(ScriptContext& context, uinttime_t interruptTime)
                 }
                 else
                 {
+                    operandsRead = true;
                     storeTop<true>(eventSystem, listener);
                 }
                 break;
             }
             catch (...)
             {
-                skipField();
+                if (!operandsRead) {
+                    // storeTop reads the operands itself: only step over them when it was not reached
+                    skipField();
+                }
+
                 m_Stack.GetTop().Clear();
                 throw;
             }
+        }
 
         case OP_STORE_FLOAT:
         {
